@@ -112,6 +112,12 @@ def entries(tier="quick"):
     add("MaskedPiecewiseRQAR tails", lambda: ar.MaskedPiecewiseRationalQuadraticAutoregressiveTransform(3, 8, num_bins=3, tails="linear", tail_bound=3.0, num_blocks=1), [3], kinks=True)
     add("MaskedPiecewiseRQAR tails, mins", lambda: ar.MaskedPiecewiseRationalQuadraticAutoregressiveTransform(
         3, 8, num_bins=3, tails="linear", tail_bound=2.0, num_blocks=1, min_bin_width=0.05, min_bin_height=0.02, min_derivative=0.1), [3], kinks=True)
+    # conditioner options the constructors offer (normalisation inside the MADE blocks, dropout): in evaluation mode these are
+    # per-unit maps and leave the transform autoregressive
+    add("MaskedAffineAR(residual, norm in blocks, dropout)", lambda: ar.MaskedAffineAutoregressiveTransform(
+        3, 8, num_blocks=2, use_batch_norm=True, dropout_probability=0.2), [3])
+    add("MaskedPiecewiseRQAR tails (feed-forward, norm in blocks)", lambda: ar.MaskedPiecewiseRationalQuadraticAutoregressiveTransform(
+        3, 8, num_bins=3, tails="linear", tail_bound=3.0, num_blocks=2, use_residual_blocks=False, use_batch_norm=True), [3], kinks=True)
     add("MaskedUMNNAR", lambda: ar.MaskedUMNNAutoregressiveTransform(3, 8, num_blocks=1, integrand_net_layers=[8, 8], cond_size=4, nb_steps=30), [3], umnn=True)
     # ---- wrappers
     add("Composite(LU,Tanh,Inverse(Tanh),Exp)", lambda: base.CompositeTransform([lu.LULinear(3, identity_init=False), nl.Tanh(), base.InverseTransform(nl.Tanh()), nl.Exp()]), [3])
